@@ -205,6 +205,20 @@ def check_config(cfg, w, rep):
             rep.violation("descriptor:%s" % k,
                           "on-disk format changed: %s is %r, the versioned cacache format requires %r" % (k, got, want),
                           loc=where.get(k), config=cfg, rule="descriptor")
+    # the library reads what an independent writer of this format produced: every bucket reader takes ALL lines of the file
+    # and validates each as the format says (the reader clauses of C06, re-checked here: a reader that stops early, drops
+    # lines or validates differently reads a reference-written cache differently from the reference)
+    from ..framework import Report
+    from . import c06
+    sub = Report("C06")
+    for p_ in R.bucket_readers:
+        c06.check_reader(cfg, w, sub, prog.fns[p_])
+    for (c_, rule, k, desc, ok) in sub.obligations:
+        if ok:
+            rep.ob(cfg, "reader/" + rule, k, desc)
+    for k, v in sub.violations.items():
+        rep.violation("reader:%s" % k, "an index written by another implementation of the format would be read differently — " + v.msg,
+                      loc=v.loc, config=cfg, rule="reader/" + (v.rule or ""), witness=v.witness)
     # writer/reader agreement (sibling check): the reader validates with the same HASH_ENTRY role the writers use
     rep.count("descriptor_keys[%s]" % cfg, len(ORACLE))
     rep.floor("index_inserts", len(R.index_inserts), 2 if is_async else 1, cfg)
